@@ -254,7 +254,20 @@ def run(ctx):
             ctx.check(norm(st.value).replace(" ", "") in (f"len({dvar}.fields)+len(RESERVED_FIELDS)", f"len(RESERVED_FIELDS)+len({dvar}.fields)"), "R2.5", "unpack_obj:record:expected-length",
                       f"expected length is {norm(st.value)}", st, f"len({dvar}.fields) + len(RESERVED_FIELDS)")
     if exp is None:
-        raise AnalysisError("R2.5: expected length computation not found")
+        # the bound compared with len(values) is something else: name what it is
+        vfin = norm(fin[0].args[0].value) if fin and fin[0].args and isinstance(fin[0].args[0], ast.Starred) else None
+        guards5 = [st for st in ast.walk(body) if isinstance(st, ast.If) and isinstance(st.test, ast.Compare) and isinstance(st.test.left, ast.Call) and call_name(st.test.left) == "len"]
+        bound = None
+        for g5 in guards5:
+            bname = norm(g5.test.comparators[0])
+            bdefs = [st.value for st in ast.walk(body) if isinstance(st, ast.Assign) and norm(st.targets[0]) == bname]
+            bound = norm(bdefs[0]) if bdefs else bname
+        if bound is None:
+            raise AnalysisError("R2.5: expected length computation not found")
+        ctx.fail("R2.5", "unpack_obj:record:expected-length", f"the number of values a record is cut to is `{bound}`, not len(<this record's descriptor>.fields) + len(RESERVED_FIELDS): "
+                 "a count taken from anywhere else (e.g. remembered per type NAME) belongs to another descriptor when two same-name types are in the stream - extra values are "
+                 "stripped or kept wrongly", guards5[0], key="R2.5:unpack_obj:record:expected-length-source")
+        return
     ver = None
     valvar = None
     for st in ast.walk(body):
